@@ -159,6 +159,9 @@ def _returns_bits(repo, fi, call):
     False or `1 if c else 0`"""
     name = norm(call.func).split(".")[-1]
     cands = [f for f in fi.module.functions.values() if f.name == name and isinstance(f.node, ast.FunctionDef)]
+    if not cands:
+        # a helper of another module of the package (LinCombBool.parse_boolean called from runtime.py): the name must be unique
+        cands = [f for m_ in repo.modules.values() for f in m_.functions.values() if f.name == name and isinstance(f.node, ast.FunctionDef)]
     if len(cands) != 1:
         return False
     rets = [r for r in ast.walk(cands[0].node) if isinstance(r, ast.Return)]
